@@ -126,6 +126,39 @@ Theorem C10_table_empty_when_all_finished : forall cfg t0 evs, wf_from 0 evs = t
 Proof. exact table_empty_when_all_finished. Qed.
 Print Assumptions C10_table_empty_when_all_finished.
 
+(* ------------------------------------------------------------------ inside the disconnect handling
+   Daemon._clientDisconnect is a loop; other daemon threads (the oneway close_stream thread, another connection
+   exhausting a stream, the housekeeper) can remove entries between two iterations.  [MVisit c id] = one loop
+   iteration (re-read the entry, then mark it lingering / delete it), [MRemove id] = a removal by another thread. *)
+
+(* the atomic Disconnect step used in all theorems above is exactly one undisturbed pass of that loop *)
+Theorem C10_disconnect_is_visits : forall cfg t0 evs c id,
+  let st := after cfg t0 evs in
+  lookup id (tbl (fst (step cfg st (Disconnect c)))) =
+  lookup id (micro_run cfg (now st) (tbl st) (map (MVisit c) (keys (tbl st)))).
+Proof. exact (fun cfg t0 evs c id => disconnect_is_visits cfg (after cfg t0 evs) c id (after_inv cfg t0 evs)). Qed.
+Print Assumptions C10_disconnect_is_visits.
+
+(* closed ids are never re-inserted: in ANY interleaving of loop iterations (of any connections) and removals, a
+   stream removed at some point is not in the table at the end — no disconnect handling resurrects it *)
+Theorem C10_closed_never_reinserted : forall cfg nw ms1 ms2 t id,
+  lookup id (micro_run cfg nw t (ms1 ++ MRemove id :: ms2)) = None.
+Proof. exact closed_never_reinserted. Qed.
+Print Assumptions C10_closed_never_reinserted.
+
+(* a pass disturbed by a removal at any point ends, for every stream, like: the removal, then an undisturbed pass
+   (this is how the harness models a release raced by close_stream / housekeeping) *)
+Theorem C10_racing_disconnect_outcome : forall cfg nw c ks1 ks2 id t k, NoDup (ks1 ++ ks2) ->
+  lookup k (micro_run cfg nw t (map (MVisit c) ks1 ++ MRemove id :: map (MVisit c) ks2)) =
+  lookup k (micro_run cfg nw (remove id t) (map (MVisit c) (ks1 ++ ks2))).
+Proof. exact racing_disconnect_outcome. Qed.
+Print Assumptions C10_racing_disconnect_outcome.
+
+(* the loop iteration of the source has the shape [MVisit] assumes: it re-reads each entry it writes back *)
+Theorem C10_disconnect_rereads_entries : gen_disconnect_rereads = true.
+Proof. vm_compute. reflexivity. Qed.
+Print Assumptions C10_disconnect_rereads_entries.
+
 (* ------------------------------------------------------------------ client side ------------------------------------------------------------------
    [cafter pol cfg t0 n ops]: n proxies, the arbitrary list ops of client operations (open a stream, next() on a
    stream object, next() hit by a transport failure, close(), release / reconnect of a proxy, housekeeping, clock
@@ -275,3 +308,9 @@ Example C10_nonvacuous_client_resume :
   exists it px s, iter_ready cs 0 = Ready it 0 px 0 /\ lookup (ci_sid it) (tbl (srv cs)) = Some s /\
                   owner s = Some 0 /\ rest s = [Yield 8].
 Proof. vm_compute. eexists. eexists. eexists. repeat split. Qed.
+
+Example C10_nonvacuous_racing_disconnect :
+  let t := tbl (after default_config 1000 [Open 0 [Yield 1]; Open 0 [Yield 2]; Open 0 [Yield 3]]) in
+  map fst (micro_run default_config 1000 t [MVisit 0 0; MRemove 2; MVisit 0 1; MVisit 0 2]) = [0; 1] /\
+  map (fun kv => owner (snd kv)) (micro_run default_config 1000 t [MVisit 0 0; MRemove 2; MVisit 0 1; MVisit 0 2]) = [None; None].
+Proof. vm_compute. auto. Qed.
